@@ -26,6 +26,7 @@ def run(ctx, deep=False):
     for gen in (4, 5):
         total += frame_try.run_gen(ctx, gen, 800 if thorough else 100)
     ctx.count("whole-frames", total)
+    constructed_texts(ctx, frame_try)
     # several messages of varying size accepted while the link is down and flushed together (each is sized when accepted, encoded
     # when flushed): every frame on the wire is the frame of its own message
     import sockcheck
@@ -40,6 +41,38 @@ def run(ctx, deep=False):
                         "whole-frame path (header factory, wrappers, CRC, receive path) is covered by the frame differential (frame_try: real send path and real _read_one_message against the model's frameOf / parse; whole-frame round trip judged for well-formed messages)"]
 
 
+def constructed_texts(ctx, frame_try):
+    """messages built by an application (not obtained from a decoder) whose length-prefixed text fields hold awkward texts - among them
+    texts that end in, or consist of, NUL characters: through the real send path and back through the real receive path the message
+    arrives as it was sent (fixed-width fields, where trailing NULs are padding, are not in this family)"""
+    import importlib
+    texts = [t.decode() for t in codec.AWKWARD_TEXTS] + ["Den\x00\x00", "\x00", "a\x00", "", "Kitchen", "\x00x"]
+    for gen in (4, 5):
+        real = frame_try.Real(gen)
+        msgs = []
+        ver = importlib.import_module("pyairtouch.at%d.comms.x1FFF30_console_ver" % gen)
+        ext = importlib.import_module("pyairtouch.at%d.comms.x1F_ext" % gen)
+        for t in texts:
+            if "," not in t and "|" not in t:
+                msgs.append(("console version", ver.ConsoleVersionMessage(update_available=False, versions=[t, "1.0"] if t else ["1.0"])))
+        if gen == 5:
+            zn = importlib.import_module("pyairtouch.at5.comms.x1FFF13_zone_names")
+            for i, t in enumerate(texts):
+                msgs.append(("zone names", zn.ZoneNamesMessage(zone_names={i % 16: t, (i + 1) % 16: "Bed"})))
+        for what, m in msgs:
+            wire, data = real.send(ext.ExtendedMessage(m), 7)
+            ctx.case(("constructed-text", gen, what, repr(m)))
+            if data is None:
+                ctx.count("constructed-text:%s:%s" % (what, wire.split(":")[1] if ":" in wire else wire))
+                continue
+            txt, hm = real.read_one(data)
+            ctx.count("constructed-text:%s:%s" % (what, "back" if hm is not None else txt.split(" ")[0]))
+            if hm is None or hm[1] != ext.ExtendedMessage(m):
+                ctx.violation("C03:%d:constructed-text" % gen, "AirTouch %d %s message %r: sent as %s, received as %s" % (gen, what, m, data.hex(), txt[:300]), kind="input",
+                              gen=gen, implementation_output=txt[:300], spec_verdict="the message that was sent")
+                break
+
+
 def search(ctx):
     if ctx.tier != "thorough":
         run(ctx, deep=True)
@@ -49,4 +82,11 @@ def replay(ctx, data):
     if "script" in data:
         import sockcheck
         return sockcheck.replay(ctx, data)
+    if str(data.get("key", "")).endswith("constructed-text"):
+        import frame_try
+        n = len(ctx.violations)
+        constructed_texts(ctx, frame_try)
+        for v in ctx.violations[n:]:
+            print(v.get("what") if isinstance(v, dict) else v)
+        return 1 if len(ctx.violations) > n else 0
     return codeccheck.replay_roundtrip(ctx, data)
